@@ -242,7 +242,7 @@ func main() {
 		{"inf", nil, "inf"}, {"-inf", nil, "-inf"}, {"nan", nil, "nan"}}
 	strLits := []lit{{`""`, constant.MakeString(""), ""}, {`"hello"`, constant.MakeString("hello"), ""}, {`"he said \"hi\""`, constant.MakeString(`he said "hi"`), ""},
 		{`"back\\slash"`, constant.MakeString(`back\slash`), ""}, {`"héllo ☃"`, constant.MakeString("héllo ☃"), ""}, {`"semi;colon // not a comment /* nor this */"`, constant.MakeString("semi;colon // not a comment /* nor this */"), ""},
-		{`"{}[]()"`, constant.MakeString("{}[]()"), ""}}
+		{`"{}[]()"`, constant.MakeString("{}[]()"), ""}, {`"100%% sure, %d of %s done, 50% off %v"`, constant.MakeString("100%% sure, %d of %s done, 50% off %v"), ""}}
 	guidLits := []lit{{`"e215a946-b26f-4567-a276-13136f0a1708"`, constant.MakeString("e215a946-b26f-4567-a276-13136f0a1708"), ""}, {`"e215a946b26f4567a27613136f0a1708"`, constant.MakeString("e215a946b26f4567a27613136f0a1708"), ""}}
 	type cjob struct {
 		typ string
@@ -444,6 +444,29 @@ func main() {
 		}
 		outcomes.Add(fmt.Sprintf("flags|%s|%d", base, len(byVal)))
 	})
+
+	// ---- 3b. shifting a one into the sign bit of a signed base type: either rejected, or the two's-complement pattern
+	for _, base := range []string{"int16", "int32", "int64"} {
+		lo, _ := rangeOf(base)
+		width := map[string]int{"int16": 16, "int32": 32, "int64": 64}[base]
+		for _, opt := range []int{0, 2} {
+			schema := fmt.Sprintf("[flags]\nenum SignBit : %s {\n\tOne = 1;\n\tTop = 1 << %d;\n\tTopOrOne = Top | One;\n\tSmear = Top >> %d;\n}\n", base, width-1, width-4)
+			states++
+			trans++
+			if _, _, err := fe.Gen(schema, opt, "p"); err != nil {
+				outcomes.Add("signbit-rejected|" + base)
+				continue // rejecting the expression is a legitimate answer
+			}
+			tn := exposed("SignBit", opt == 2)
+			smear := new(big.Int).Rsh(lo, uint(width-4))
+			consts += int64(checkSchema(run, "flags-sign-bit|base="+base, schema, opt, []expectation{
+				{goName: tn + "_Top", val: bigVal(lo), typ: tn, under: base, what: fmt.Sprintf("Top = 1 << %d in %s: accepted, so it must be the only representable pattern %s", width-1, base, lo)},
+				{goName: tn + "_TopOrOne", val: bigVal(new(big.Int).Add(lo, big.NewInt(1))), typ: tn, under: base, what: "Top | One"},
+				{goName: tn + "_Smear", val: bigVal(smear), typ: tn, under: base, what: "Top >> (width-4), arithmetic shift"},
+			}))
+			outcomes.Add("signbit|" + base)
+		}
+	}
 
 	// ---- 4. opcodes ------------------------------------------------------------------------------------
 	letters := []byte{'0', 'A', 'z', ' '}
